@@ -15,13 +15,14 @@ SET_DATA = 'Avtp_Vss_SetVssData'
 
 def shapes(tier):
     if tier == 'thorough':
-        plens = list(range(0, 17)) + [31, 32, 33, 255, 1000, 2026]
-        counts = list(range(0, 9)) + [15, 16, 17, 1024]
-        slens = list(range(0, 9)) + [255, 256, 4096, 65535]
+        plens = list(range(0, 17)) + [31, 32, 33, 127, 128, 255, 256, 1000, 2026]
+        counts = list(range(0, 9)) + [15, 16, 17, 130, 1024, 4096]
+        slens = list(range(0, 9)) + [127, 128, 255, 256, 4096, 32767, 32768, 65535]
     else:
-        plens = [0, 1, 2, 3, 13]
-        counts = [0, 1, 2, 3, 5]
-        slens = [0, 1, 5, 12]
+        # lengths around the 8- and 16-bit sign/carry boundaries matter as much as the small ones
+        plens = [0, 1, 2, 13, 128, 255]
+        counts = [0, 1, 2, 3, 130]
+        slens = [0, 1, 5, 128, 255, 256, 32768]
     out = []
     for mode in (V.INTEROP, V.STATIC):
         for pl in (plens if mode == V.INTEROP else [0]):
@@ -203,8 +204,8 @@ def run(ctx, tier, res, tag=''):
             else:
                 res.undec(text)
     res.extra['bound' + tag] = 'path lengths and element counts are enumerated (see rule); contents are universally quantified'
-    res.rule = ('per shape (address mode, path length in {0,1,2,3,13} [thorough: 0..16,31..33,255,1000,2026], each of the 24 datatypes, element '
-                'count in {0,1,2,3,5} [0..8,15..17,1024] / string length {0,1,5,12} [0..8,255,256,4096,65535]): SetVssPath then SetVssData interpreted on an exact-extent message region whose header pins '
+    res.rule = ('per shape (address mode, path length in {0,1,2,13,128,255} [thorough: 0..16,31..33,127,128,255,256,1000,2026], each of the 24 datatypes, element '
+                'count in {0,1,2,3,130} [0..8,15..17,130,1024,4096] / string length {0,1,5,128,255,256,32768} [0..8,127,128,255,256,4096,32767,32768,65535]): SetVssPath then SetVssData interpreted on an exact-extent message region whose header pins '
                 'only addr_mode and vss_datatype, with symbolic path bytes, static id and values; final image must equal the reference '
                 'encoder (acf-vss.md) and nothing else may change; reserved modes/codes must write nothing')
     res.assumptions.append('uniformity in the two lengths is not proved: the verdict is exact for each enumerated shape')
